@@ -5,6 +5,7 @@ import (
 	"bytes"
 	"fmt"
 	"math"
+	"strconv"
 	"strings"
 	"testing"
 	"unicode"
@@ -378,7 +379,7 @@ func isFileKey(k string) bool {
 	return k != ""
 }
 
-var apiUnits = []string{"ns/op", "MB/s", "B/op", "sec/op", "ns", "MB", "widgets", "ns/MB", "x-ns", "MB*ns", "u", "é/op", "nsec"}
+var apiUnits = []string{"ns/op", "MB/s", "B/op", "sec/op", "ns", "MB", "widgets", "ns/MB", "x-ns", "MB*ns", "u", "é/op", "nsec", "%", "%cpu", "100%s", "%d/op", "a%20b", "%!v"}
 
 func genVal(t *rapid.T) Val {
 	var b uint64
@@ -398,7 +399,18 @@ func genVal(t *rapid.T) Val {
 	case 6:
 		b = math.Float64bits(float64(int64(1)<<53 + int64(rapid.IntRange(-1, 1).Draw(t, "p53"))))
 	case 7:
-		b = rapid.Uint64Range(1, 1<<52).Draw(t, "subn")
+		if rapid.Bool().Draw(t, "shortmant") {
+			// few significant digits, any decimal exponent: printed in exponent form by the writer
+			m := float64(rapid.IntRange(1, 999).Draw(t, "mant"))
+			e := rapid.IntRange(-40, 45).Draw(t, "exp10")
+			f, _ := strconv.ParseFloat(strconv.FormatFloat(m, 'f', -1, 64)+"e"+strconv.Itoa(e), 64)
+			if rapid.Bool().Draw(t, "negv") {
+				f = -f
+			}
+			b = math.Float64bits(f)
+		} else {
+			b = rapid.Uint64Range(1, 1<<52).Draw(t, "subn")
+		}
 	default:
 		b = math.Float64bits(rapid.Float64Range(0, 1e9).Draw(t, "ord"))
 	}
@@ -406,7 +418,7 @@ func genVal(t *rapid.T) Val {
 }
 
 var valGen = rapid.OneOf(
-	rapid.SampledFrom([]string{"v", "1", "linux", "x y", "v ", "é日本", "k: v", "\xff", "a\rb", "Benchmark", ":"}),
+	rapid.SampledFrom([]string{"v", "1", "linux", "x y", "v ", "é日本", "k: v", "\xff", "a\rb", "Benchmark", ":", "\u00a0x", "\u2003", "x\u00a0", "100%", "%s %d", "Unit"}),
 	rapid.StringMatching(`[!-~][ -~]{0,6}`),
 )
 
@@ -437,8 +449,8 @@ func GenAPI(t *rapid.T) APICase {
 			} else {
 				s.Op = "unitmeta"
 				s.K = rapid.SampledFrom(apiUnits).Draw(t, "mu")
-				s.V = rapid.SampledFrom([]string{"better", "assume", "k", "é"}).Draw(t, "mk")
-				s.Name = rapid.SampledFrom([]string{"higher", "lower", "exact", "", "x=y"}).Draw(t, "mv")
+				s.V = rapid.SampledFrom([]string{"better", "assume", "k", "é", "%s", "k%d"}).Draw(t, "mk")
+				s.Name = rapid.SampledFrom([]string{"higher", "lower", "exact", "", "x=y", "50%", "%v"}).Draw(t, "mv")
 			}
 		default:
 			s.Op = "write"
